@@ -537,6 +537,9 @@ def c13(ctx):
     r = printer_model(ctx)
     ctx.replay([r['out'], printer_strings(ctx)['out'], wide_families(ctx)['out']], ['C13.'])
     printer_trace(ctx, 'C13.trace', None)
+    sweeps(ctx, ['width_str', 'width_key'], 'C13.sweep',
+           'the width the layout decision attributes to a one-character string / key differs from the number of characters printed '
+           '(smallest Width limit keeping ["x"] / {"x":null} on one line; run-compressed exhaustive sweep over every scalar)')
 
 
 def c04(ctx):
@@ -598,7 +601,7 @@ def canon_trace(ctx, reasons_to_aspect):
             raise ToolError(f'harness-side certificate is wrong at event {l} of {trace} (claimed double is not the nearest, or a rewriting '
                             f'does not preserve meaning): {lines[l - 1][:400]}')
         key = why.split(':')[0]
-        aspect = reasons_to_aspect.get(key)
+        aspect = reasons_to_aspect.get(why, reasons_to_aspect.get(key))
         counts[why] = counts.get(why, 0) + 1
         if aspect is None:
             continue
@@ -631,7 +634,9 @@ def c09(ctx):
 def c10(ctx):
     r = canon_model(ctx)
     ctx.replay([r['out']], ['C10.'])
-    canon_trace(ctx, {'idempotence': 'C10.idempotent', 'invariance': 'C10.invariance', 'index': 'C10.index', 'queries': 'C10.queries',
+    # "each number keeps its double value": the rendering must denote the nearest double of the source spelling (certificate
+    # reasons roundtrip / sign / zero); shortest-digits and layout deviations belong to C09 only
+    canon_trace(ctx, {'number:roundtrip': 'C10.number', 'number:sign': 'C10.number', 'number:zero': 'C10.number', 'idempotence': 'C10.idempotent', 'invariance': 'C10.invariance', 'index': 'C10.index', 'queries': 'C10.queries',
                       'structure': 'C10.structure'})
 
 
